@@ -122,7 +122,9 @@ def run_cases(unit_name, cases, opts, world=None):
             if o.extra.get('needs_validation') and rp.get('status') != 'reproduced':
                 o.result = 'unknown'; o.backend = (o.backend or '') + ' candidate model not reproduced'
                 continue
-            if getattr(case, 'internal_representation', False) and rp.get('status') != 'reproduced' and getattr(case, 'e2e', None) is not None:
+            if rp.get('status') != 'reproduced' and getattr(case, 'e2e', None) is not None:
+                # no function-level reproduction: look for a failing real input with a small end-to-end run of the operator (this only
+                # ever ADDS an input to a refutation, or -- for contracts on internal representations, below -- is required for it to count)
                 try:
                     found = case.e2e()
                 except Exception as ex:
